@@ -83,6 +83,7 @@ class Unit:
         self.table = []             # (line_lo, line_hi, obligation, origin, kind)
         self.inliner = None
         self.ac_broadcast = True
+        self.close_exclude = None
         self.functions = []         # dicts for evidence
         self.assumed = []           # contracts assumed here, proved in another unit
         self.skipped = []           # (anchor, reason)
@@ -173,6 +174,8 @@ class Unit:
                     if k in own:
                         continue
                     if st2 is not None and st2 not in scope:
+                        continue
+                    if self.close_exclude is not None and self.close_exclude(im2, f2):
                         continue
                     if im2 is not None and im2.trait and trait_args(im2.trait):
                         # operator / From impls: the argument type must be in scope too (or be the scalar)
@@ -711,7 +714,8 @@ class Unit:
                    'selfty': im.selfty if im is not None else None}
         (self.assumed if assumed else self.functions).append({'anchor': name, 'sig': siginfo, 'origin': origin, 'body_sha256_16': src.body_hash(f),
                                'expansion_line': src.line_of(f.sig[0]),
-                               'requires': c.requires, 'ensures': c.ensures, 'tags': list(c.tags)})
+                               'requires': c.requires, 'ensures': c.ensures, 'tags': list(c.tags),
+                               'branch_free': (not assumed) and not re.search(r'(?<![A-Za-z0-9_])(if|match|while|for|loop|return)(?![A-Za-z0-9_])|\?|&&|\|\|', re.sub(r'proof \{.*?\}\n', '', body, flags=re.S))})
         return text
 
     # ------------------------------------------------------------------
